@@ -114,8 +114,32 @@ static void hierarchy(int trace){ int depth=1+(int)(rnd()%3); struct lvl *L=call
     if(l->has_spec && atomic_load(&l->spec_runs)!=1) fail("a queue-specific destructor did not run exactly once: depth/runs",d,atomic_load(&l->spec_runs),0);
     if(l->has_fin && atomic_load(&l->ctx_seen)!=l->ctx_expected) fail("the finalizer did not receive the context current at the time: depth/seen/expected",d,atomic_load(&l->ctx_seen),l->ctx_expected);
     if(l->has_fin && atomic_load(&l->fin_stamp) < atomic_load(&l->last_item_end)) fail("a queue's finalizer ran before its last item had finished: depth",d,0,0);
-    if(atomic_load(&l->fin_on_wrong_queue)) fail("a queue's finalizer did not run on its target queue: depth",d,0,0); }
+    if(atomic_load(&l->fin_on_wrong_queue)) fail("a queue's finalizer did not run on its target queue: depth",d,0,0);
+    if(l->has_fin && l->target && l->target->has_fin && atomic_load(&l->target->fin_stamp) < atomic_load(&l->fin_stamp)) fail("a queue was finalised before a queue that still targeted it: depth of the target",d+1,0,0); }
   rounds_done++; /* L and C are intentionally not freed before the finalizers have run; leak them (small) */ }
+// ---- retargeting a busy queue (the change of target is deferred behind the running item) and dropping the new target at once:
+// the new target must stay alive from the moment dispatch_set_target_queue returns until the retargeted queue is gone
+struct rt { _Atomic int fins; _Atomic long stamp; _Atomic long released; };
+static void rt_fin(void *c){ struct rt *r=c; if(atomic_fetch_add(&r->fins,1)) fail("a retarget scenario finalizer ran twice",0,0,0); atomic_store(&r->stamp,stamp()); }
+static void retarget_round(int trace){ struct rt *RQ=calloc(1,sizeof *RQ), *RT=calloc(1,sizeof *RT);
+  dispatch_queue_t q=dispatch_queue_create("rq", rnd()%2?DISPATCH_QUEUE_SERIAL:DISPATCH_QUEUE_CONCURRENT); dispatch_set_context(q,RQ); dispatch_set_finalizer_f(q,rt_fin);
+  dispatch_queue_t tq=dispatch_queue_create("rt", NULL); dispatch_set_context(tq,RT); dispatch_set_finalizer_f(tq,rt_fin);
+  if(trace){ track(q); track(tq); }
+  __block _Atomic int busy=0, go=0, ran=0; int busy_mode=(int)(rnd()%3);
+  if(busy_mode) dispatch_async(q, ^{ atomic_store(&busy,1); for(int w=0; w<20000 && !atomic_load(&go); w++) usleep(50); });
+  if(busy_mode) for(int w=0; w<20000 && !atomic_load(&busy); w++) usleep(50);
+  dispatch_set_target_queue(q,tq);                       // q is busy: the change is queued behind the running item
+  atomic_store(&RT->released,stamp()); dispatch_release(tq);   // the application's only reference to the new target
+  if(rnd()%2) usleep(rnd()%500);
+  if(atomic_load(&RT->fins)) fail("a queue was finalised while another queue's change of target to it was pending or in effect",0,0,0);
+  atomic_store(&go,1);
+  for(int i=0;i<4;i++) dispatch_async(q, ^{ if(atomic_load(&RT->fins)) fail("an item ran on a queue whose target had already been finalised",0,0,0); atomic_fetch_add(&ran,1); });
+  dispatch_barrier_sync(q, ^{});
+  if(atomic_load(&ran)!=4) fail("items submitted after a retarget did not all run: ran",atomic_load(&ran),0,0);
+  atomic_store(&RQ->released,stamp()); dispatch_release(q);
+  for(int w=0; w<5000 && !(atomic_load(&RQ->fins) && atomic_load(&RT->fins)); w++) usleep(500);
+  if(atomic_load(&RQ->fins)!=1 || atomic_load(&RT->fins)!=1) fail("retarget scenario: finalizers did not each run exactly once: queue/target",atomic_load(&RQ->fins),atomic_load(&RT->fins),0);
+  else if(atomic_load(&RT->stamp) < atomic_load(&RQ->stamp)) fail("the new target was finalised before the queue retargeted to it",0,0,0); }
 // ---- sources and data
 static void source_round(void){ dispatch_queue_t q=dispatch_queue_create("sq",NULL); __block _Atomic int fins=0, cancels=0;
   dispatch_source_t s=dispatch_source_create(DISPATCH_SOURCE_TYPE_TIMER,0,0,q);
@@ -140,7 +164,7 @@ static void data_round(void){ enum { N=5 }; _Atomic int *d=calloc(N,sizeof *d); 
   for(int w=0; w<5000; w++){ int all=1; for(int j=0;j<N;j++) if(!atomic_load(&d[j])) all=0; if(all) break; usleep(200); }
   for(int j=0;j<N && !viol;j++) if(atomic_load(&d[j])!=1) fail("a data destructor did not run exactly once after the last reference to its data was dropped: leaf/runs",j,atomic_load(&d[j]),0); }
 static int nrounds, do_trace;
-static void *worker(void *a){ long me=(long)a; for(int r=0;r<nrounds && !viol;r++){ hierarchy(do_trace && me==0); if(r%4==0) source_round(); if(r%3==0) data_round(); } return 0; }
+static void *worker(void *a){ long me=(long)a; for(int r=0;r<nrounds && !viol;r++){ hierarchy(do_trace && me==0); if(r%4==0) source_round(); if(r%3==0) data_round(); if(r%2==0) retarget_round(do_trace && me==0); } return 0; }
 static void on_crash(int sig){ char b[220]; int n=snprintf(b,sizeof b,"ORACLE VIOL seed=%llu the library trapped or crashed (signal %d) during object life cycles (its own over-release / resurrection / corrupt-state check, or a use after free)\n",(unsigned long long)seed,sig); if(n>0) (void)!write(1,b,(size_t)n); _exit(1); }
 int main(int argc,char**argv){ seed=argc>1?strtoull(argv[1],0,0):1; nrounds=argc>2?atoi(argv[2]):60; int nthr=argc>3?atoi(argv[3]):3; do_trace=1;
   if(!getenv("ASAN_OPTIONS")){ signal(SIGILL,on_crash); signal(SIGSEGV,on_crash); signal(SIGABRT,on_crash); signal(SIGBUS,on_crash); }
